@@ -361,8 +361,11 @@ def gen_solution(rng):
     from habutax import fields as hf, enum as henum
     out = []
     used = set()
+    odd = rng.random() < 0.12         # a solution that (ab)uses the special section names
     for _ in range(rng.randint(0, 9)):
         form = rng.choice(FORM_NAMES[:8]) if rng.random() < 0.9 else rng.choice(FORM_NAMES)
+        if odd and rng.random() < 0.5:
+            form = rng.choice(['DEFAULT', 'DEFAULT', 'habutax'])
         line = rng.choice(LINE_NAMES[:7]) if rng.random() < 0.85 else rng.choice(LINE_NAMES)
         key = f'{form}.{line}'
         if key in used:
